@@ -1256,7 +1256,8 @@ func blockSizes(t mat) []int {
 }
 
 // genSchur builds an n×n upper quasi-triangular matrix in Schur canonical form.
-// mode 0: generic; 1: repeated / close eigenvalues; 2: all real; 3: graded.
+// mode 0: generic; 1: repeated / close eigenvalues; 2: all real; 3: graded; 4:
+// mostly 2×2 blocks.
 func genSchur(n, mode int, rng *vk.SplitMix) mat {
 	t := gauss(n, n, rng)
 	for i := 0; i < n; i++ {
@@ -1278,7 +1279,7 @@ func genSchur(n, mode int, rng *vk.SplitMix) mat {
 		}
 	}
 	for i := 0; i+1 < n; {
-		if mode != 2 && rng.Intn(3) == 0 {
+		if mode != 2 && (rng.Intn(3) == 0 || (mode == 4 && rng.Intn(2) == 0)) {
 			b := 0.25 + math.Abs(rng.Finite())
 			c := -(0.25 + math.Abs(rng.Finite()))
 			if rng.Intn(2) == 0 {
